@@ -171,7 +171,9 @@ class TestCaseMutation(MutationOperator):
         """Insertion mutation operation.
 
         With exponentially decreasing probability, insert statements at a random
-        position.
+        position.  An insertion emits the call together with the statements that
+        create its receiver and arguments; if that makes the test case longer than
+        the configured chromosome length, the insertion is undone.
 
         Args:
             chromosome: The chromosome being mutated.
@@ -196,8 +198,13 @@ class TestCaseMutation(MutationOperator):
                 # Also include the position after the last mutatable statement.
                 max_position += 1
 
+            backup = chromosome.test_case.clone()
             position = test_factory.insert_random_statement(chromosome.test_case, max_position)
             exponent += 1
+            if chromosome.size() > config.configuration.search_algorithm.chromosome_length:
+                # The call and its dependencies do not fit: undo the insertion.
+                chromosome.test_case = backup
+                continue
             if 0 <= position < chromosome.size():
                 changed = True
         return changed
